@@ -2,11 +2,15 @@
   Lemmas/Fault — the fault schedule of the driver model (C10).
 
   `Good k m`: the computation `m : DM α` treats the fault schedule `faultAt = some k` correctly:
-    * `Mono`: a fault-free run only increases the operation counter, only extends the trace, keeps `faultAt = none`;
+    * `Mono`: a run with no fault ahead (`Clear`: none scheduled, or the scheduled one is behind) only increases the operation
+      counter, keeps `faultAt`, only extends the trace, and the tree is the tree before with the new trace entries replayed;
     * `Sim k`: the run from `s` (no fault) and the run from `wf k s` (`faultAt := some k`), `s.opCount ≤ k`, are in lock
       step until the k-th operation is attempted (`Out k`): either they end with the same result in states that differ
       in `faultAt` only and the counter is still `≤ k`, or the faulty run ended with an exception at counter `k + 1` with
-      a trace that is a prefix of the fault-free one, whose counter is `> k`.
+      a trace that is a prefix of the fault-free one, whose counter is `> k`, or the fault was tolerated (`Tol`, D105): it hit
+      a `chmod` to the permissions which the file has at that moment (both runs did the same operations up to there; nothing
+      is said about the rest of the faulty run: in `Model/Fs` a `chmod` which changes nothing still moves the node to the
+      end of the list, so the two trees are not the same value from there on).
   Closure rules (`Good.pure`, `.bind`, `.get_bind`, `.modify`, `.ite`, `.forIn`, …), the primitives (`good_doOp`, …), a small
   tactic `dm_good` that walks over an elaborated `do` block, and `Good k (processPatchM o)`.
 -/
@@ -63,78 +67,172 @@ def wf (k : Nat) (s : DState) : DState := { s with faultAt := some k }
 @[simp] theorem wf_out (k s) : (wf k s).out = s.out := rfl
 @[simp] theorem wf_hadFailure (k s) : (wf k s).hadFailure = s.hadFailure := rfl
 
-/-- what a fault-free run does to the bookkeeping fields -/
+/-- replay a list of operations on a tree -/
+def replay : Fs → List FsOp → Option Fs
+  | fs, [] => some fs
+  | fs, op :: rest =>
+    match fs.apply op with
+    | .ok fs' => replay fs' rest
+    | .error _ => none
+
+theorem replay_append (fs : Fs) (a b : List FsOp) : replay fs (a ++ b) = (replay fs a).bind fun fs' => replay fs' b := by
+  induction a generalizing fs with
+  | nil => rfl
+  | cons op a ih =>
+    simp only [List.cons_append, replay]
+    cases fs.apply op with
+    | ok fs' => exact ih fs'
+    | error e => rfl
+
+theorem replay_trans {fs fs1 fs2 : Fs} {a b : List FsOp} (h1 : replay fs a = some fs1) (h2 : replay fs1 b = some fs2) :
+    replay fs (a ++ b) = some fs2 := by
+  rw [replay_append, h1]; exact h2
+
+/-- no fault ahead: none is scheduled, or the scheduled one is behind -/
+def Clear (s : DState) : Prop := ∀ k, s.faultAt = some k → k < s.opCount
+
+theorem Clear.of_none {s : DState} (h : s.faultAt = none) : Clear s := fun k hk => by rw [h] at hk; cases hk
+
+theorem Clear.beq {s : DState} (h : Clear s) : (s.faultAt == some s.opCount) = false := by
+  cases hf : s.faultAt with
+  | none => rfl
+  | some k =>
+    have := h k hf
+    simp only [beq_eq_false_iff_ne, ne_eq, Option.some.injEq]
+    omega
+
+/-- what a run with no fault ahead does to the bookkeeping fields -/
 def MonoAt (s s' : DState) : Prop :=
-  s.opCount ≤ s'.opCount ∧ s'.faultAt = none ∧ ∃ t, s'.trace = s.trace ++ t
+  s.opCount ≤ s'.opCount ∧ s'.faultAt = s.faultAt ∧ ∃ t, s'.trace = s.trace ++ t ∧ replay s.fs t = some s'.fs
 
-def Mono {α} (m : DM α) : Prop := ∀ s, s.faultAt = none → MonoAt s (run m s).2
+def Mono {α} (m : DM α) : Prop := ∀ s, Clear s → MonoAt s (run m s).2
 
-/-- the outcomes `p` of a fault-free run and `q` of the run with the fault scheduled at `k` -/
-def Out {α} (k : Nat) (p q : Except Exn α × DState) : Prop :=
+/-- the permissions of a node (`filesystem::get_permissions`) are `m` -/
+def hasMode (n : Option Node) (m : Nat) : Bool :=
+  match n with
+  | some (.file _ m') => m' == m | some (.dir m') => m' == m | some (.other m') => m' == m | _ => false
+
+/-- a fault-free run from `s0` ended in `free`, the run with the fault in `faulty`: both did the operations `t1`, then the
+    fault-free run did `chmod path m` — where the tree after `t1` already has `m` as the permissions of `path` — and the other
+    run, in which this operation failed, went on without it (D105) -/
+def ToleratedChmod (s0 free faulty : DState) : Prop :=
+  ∃ t1 path m fs1, (∃ t2, free.trace = s0.trace ++ t1 ++ .chmod path m :: t2) ∧ (∃ t2, faulty.trace = s0.trace ++ t1 ++ t2) ∧
+    replay s0.fs t1 = some fs1 ∧ hasMode (fs1.stat path) m = true
+
+/-- the fault was reached and tolerated -/
+def Tol {α} (k : Nat) (s : DState) (p q : Except Exn α × DState) : Prop :=
+  k < p.2.opCount ∧ k < q.2.opCount ∧ q.2.faultAt = some k ∧ p.2.faultAt = none ∧ ToleratedChmod s p.2 q.2
+
+/-- the outcomes `p` of a fault-free run from `s` and `q` of the run with the fault scheduled at `k` -/
+def Out {α} (k : Nat) (s : DState) (p q : Except Exn α × DState) : Prop :=
   (q.1 = p.1 ∧ q.2 = wf k p.2 ∧ p.2.opCount ≤ k) ∨
-  (k < p.2.opCount ∧ q.2.opCount = k + 1 ∧ q.2.faultAt = some k ∧ (∃ e, q.1 = .error e) ∧ ∃ t, p.2.trace = q.2.trace ++ t)
+  (k < p.2.opCount ∧ q.2.opCount = k + 1 ∧ q.2.faultAt = some k ∧ (∃ e, q.1 = .error e) ∧ ∃ t, p.2.trace = q.2.trace ++ t) ∨
+  Tol k s p q
 
 def Sim {α} (k : Nat) (m : DM α) : Prop :=
-  ∀ s, s.faultAt = none → s.opCount ≤ k → Out k (run m s) (run m (wf k s))
+  ∀ s, s.faultAt = none → s.opCount ≤ k → Out k s (run m s) (run m (wf k s))
 
 structure Good {α} (k : Nat) (m : DM α) : Prop where
   mono : Mono m
   sim : Sim k m
 
-theorem MonoAt.refl {s : DState} (h : s.faultAt = none) : MonoAt s s := ⟨Nat.le_refl _, h, [], by simp⟩
+theorem MonoAt.refl (s : DState) : MonoAt s s := ⟨Nat.le_refl _, rfl, [], by simp, rfl⟩
 
 theorem MonoAt.trans {a b c : DState} (h1 : MonoAt a b) (h2 : MonoAt b c) : MonoAt a c := by
-  obtain ⟨h1a, h1b, t1, h1c⟩ := h1
-  obtain ⟨h2a, h2b, t2, h2c⟩ := h2
-  exact ⟨Nat.le_trans h1a h2a, h2b, t1 ++ t2, by rw [h2c, h1c, List.append_assoc]⟩
+  obtain ⟨h1a, h1b, t1, h1c, h1d⟩ := h1
+  obtain ⟨h2a, h2b, t2, h2c, h2d⟩ := h2
+  exact ⟨Nat.le_trans h1a h2a, h2b.trans h1b, t1 ++ t2, by rw [h2c, h1c, List.append_assoc], replay_trans h1d h2d⟩
+
+theorem MonoAt.clear {a b : DState} (h : MonoAt a b) (ha : Clear a) : Clear b := fun k hk => by
+  rw [h.2.1] at hk; exact Nat.lt_of_lt_of_le (ha k hk) h.1
+
+/-- a tolerated fault seen from an earlier state -/
+theorem Tol.lift {α k} {s s' : DState} {p q : Except Exn α × DState} (hm : MonoAt s s') (h : Tol k s' p q) : Tol k s p q := by
+  obtain ⟨_, _, t0, e0, r0⟩ := hm
+  obtain ⟨h1, h2, h3, h4, t1, path, m, fs1, ⟨t2, e1⟩, ⟨t2', e2⟩, r1, hm⟩ := h
+  refine ⟨h1, h2, h3, h4, t0 ++ t1, path, m, fs1, ⟨t2, ?_⟩, ⟨t2', ?_⟩, replay_trans r0 r1, hm⟩
+  · rw [e1, e0]; simp only [List.append_assoc]
+  · rw [e2, e0]; simp only [List.append_assoc]
+
+/-- a tolerated fault stays one, whatever the two runs go on to do -/
+theorem Tol.extend {α β k} {s : DState} {p q : Except Exn α × DState} {p' q' : Except Exn β × DState} (h : Tol k s p q)
+    (hp : MonoAt p.2 p'.2) (hq : MonoAt q.2 q'.2) : Tol k s p' q' := by
+  obtain ⟨h1, h2, h3, h4, t1, path, m, fs1, ⟨t2, e1⟩, ⟨t2', e2⟩, r1, hm⟩ := h
+  obtain ⟨p1, p2, tp, p3, _⟩ := hp
+  obtain ⟨q1, q2, tq, q3, _⟩ := hq
+  refine ⟨Nat.lt_of_lt_of_le h1 p1, Nat.lt_of_lt_of_le h2 q1, q2.trans h3, p2.trans h4, t1, path, m, fs1,
+    ⟨t2 ++ tp, ?_⟩, ⟨t2' ++ tq, ?_⟩, r1, hm⟩
+  · rw [p3, e1]; simp only [List.append_assoc, List.cons_append]
+  · rw [q3, e2]; simp only [List.append_assoc]
+
+theorem Tol.clear {α k} {s : DState} {p q : Except Exn α × DState} (h : Tol k s p q) : Clear q.2 := fun k' hk => by
+  rw [h.2.2.1] at hk; cases hk; exact h.2.1
 
 /-! ## closure rules -/
 
 theorem Good.pure {α k} (a : α) : Good k (pure a : DM α) where
-  mono := fun s h => by rw [run_pure]; exact MonoAt.refl h
+  mono := fun s _ => by rw [run_pure]; exact MonoAt.refl s
   sim := fun s _ hc => by rw [run_pure, run_pure]; exact .inl ⟨rfl, rfl, hc⟩
 
 theorem Good.throw {α k} (e : Exn) : Good k (throw e : DM α) where
-  mono := fun s h => by rw [run_throw]; exact MonoAt.refl h
+  mono := fun s _ => by rw [run_throw]; exact MonoAt.refl s
   sim := fun s _ hc => by rw [run_throw, run_throw]; exact .inl ⟨rfl, rfl, hc⟩
 
 theorem Good.liftE {α k} (e : Except Exn α) : Good k (liftE e : DM α) where
-  mono := fun s h => by rw [run_liftE]; exact MonoAt.refl h
+  mono := fun s _ => by rw [run_liftE]; exact MonoAt.refl s
   sim := fun s _ hc => by rw [run_liftE, run_liftE]; exact .inl ⟨rfl, rfl, hc⟩
+
+theorem Mono.bind {α β} {m : DM α} {f : α → DM β} (hm : Mono m) (hf : ∀ a, Mono (f a)) : Mono (m >>= f) := fun s h => by
+  have h1 := hm s h
+  rcases hr : run m s with ⟨r, s'⟩
+  rw [hr] at h1
+  cases r with
+  | error e => rw [run_bind_error hr]; exact h1
+  | ok a => rw [run_bind_ok hr]; exact h1.trans (hf a s' (h1.clear h))
 
 theorem Good.bind {α β k} {m : DM α} {f : α → DM β} (hm : Good k m) (hf : ∀ a, Good k (f a)) :
     Good k (m >>= f) where
-  mono := fun s h => by
-    have h1 := hm.mono s h
-    rcases hr : run m s with ⟨r, s'⟩
-    rw [hr] at h1
-    cases r with
-    | error e => rw [run_bind_error hr]; exact h1
-    | ok a => rw [run_bind_ok hr]; exact h1.trans ((hf a).mono s' h1.2.1)
+  mono := Mono.bind hm.mono fun a => (hf a).mono
   sim := fun s h hc => by
-    have h1 := hm.mono s h
+    have h1 := hm.mono s (.of_none h)
     have h2 := hm.sim s h hc
     rcases hr : run m s with ⟨r, s'⟩
     rcases hq : run m (wf k s) with ⟨r2, s2⟩
     rw [hr] at h1
     rw [hr, hq] at h2
-    rcases h2 with ⟨e1, e2, e3⟩ | ⟨e1, e2, e3, ⟨e, e4⟩, t, e5⟩
+    have hs' : s'.faultAt = none := h1.2.1.trans h
+    rcases h2 with ⟨e1, e2, e3⟩ | ⟨e1, e2, e3, ⟨e, e4⟩, t, e5⟩ | ht
     · simp only at e1 e2 e3
       subst e1 e2
       cases r2 with
       | error e => rw [run_bind_error hr, run_bind_error hq]; exact .inl ⟨rfl, rfl, e3⟩
-      | ok a => rw [run_bind_ok hr, run_bind_ok hq]; exact (hf a).sim s' h1.2.1 e3
+      | ok a =>
+        rw [run_bind_ok hr, run_bind_ok hq]
+        rcases (hf a).sim s' hs' e3 with h3 | h3 | h3
+        · exact .inl h3
+        · exact .inr (.inl h3)
+        · exact .inr (.inr (h3.lift h1))
     · simp only at e1 e2 e3 e4 e5
       subst e4
       rw [run_bind_error hq]
       cases r with
-      | error e' => rw [run_bind_error hr]; exact .inr ⟨e1, e2, e3, ⟨e, rfl⟩, t, e5⟩
+      | error e' => rw [run_bind_error hr]; exact .inr (.inl ⟨e1, e2, e3, ⟨e, rfl⟩, t, e5⟩)
       | ok a =>
         rw [run_bind_ok hr]
-        obtain ⟨m1, _, t', m3⟩ := (hf a).mono s' h1.2.1
-        refine .inr ⟨Nat.lt_of_lt_of_le e1 m1, e2, e3, ⟨e, rfl⟩, t ++ t', ?_⟩
+        obtain ⟨m1, _, t', m3, _⟩ := (hf a).mono s' (.of_none hs')
+        refine .inr (.inl ⟨Nat.lt_of_lt_of_le e1 m1, e2, e3, ⟨e, rfl⟩, t ++ t', ?_⟩)
         simp only at *
         rw [m3, e5, List.append_assoc]
+    · refine .inr (.inr ?_)
+      have hp : MonoAt s' (run (m >>= f) s).2 := by
+        cases r with
+        | error e' => rw [run_bind_error hr]; exact MonoAt.refl _
+        | ok a => rw [run_bind_ok hr]; exact (hf a).mono s' (.of_none hs')
+      have hq' : MonoAt s2 (run (m >>= f) (wf k s)).2 := by
+        cases r2 with
+        | error e' => rw [run_bind_error hq]; exact MonoAt.refl _
+        | ok a => rw [run_bind_ok hq]; exact (hf a).mono s2 ht.clear
+      exact ht.extend hp hq'
 
 /-- `let s ← get` — the continuation must not look at the fault schedule -/
 theorem Good.get_bind {β k} {f : DState → DM β} (hinv : ∀ s x, f { s with faultAt := x } = f s)
@@ -146,17 +244,18 @@ theorem Good.get_bind {β k} {f : DState → DM β} (hinv : ∀ s x, f { s with 
     rw [this]
     exact (hf s).sim s h hc
 
-/-- `modify` of fields other than `opCount`, `faultAt`, `trace` -/
+/-- `modify` of fields other than `opCount`, `faultAt`, `trace`, `fs` -/
 theorem Good.modify {k} {f : DState → DState}
     (h1 : ∀ s x, f { s with faultAt := x } = { f s with faultAt := x })
-    (h2 : ∀ s, (f s).opCount = s.opCount) (h3 : ∀ s, (f s).trace = s.trace) : Good k (modify f : DM PUnit) where
-  mono := fun s h => by
+    (h2 : ∀ s, (f s).opCount = s.opCount) (h3 : ∀ s, (f s).trace = s.trace) (h4 : ∀ s, (f s).fs = s.fs) :
+    Good k (modify f : DM PUnit) where
+  mono := fun s _ => by
     rw [run_modify]
-    refine ⟨Nat.le_of_eq (h2 s).symm, ?_, [], by simp [h3]⟩
-    have := h1 s none
-    have e : ({ s with faultAt := none } : DState) = s := by cases s; cases h; rfl
+    refine ⟨Nat.le_of_eq (h2 s).symm, ?_, [], by simp [h3], by rw [h4]; rfl⟩
+    have := h1 s s.faultAt
+    have e : ({ s with faultAt := s.faultAt } : DState) = s := rfl
     rw [e] at this
-    show (f s).faultAt = none
+    show (f s).faultAt = s.faultAt
     rw [this]
   sim := fun s _ hc => by
     rw [run_modify, run_modify]
@@ -208,17 +307,22 @@ theorem run_tryOp (op tol s) : run (tryOp op tol) s =
       simp only [run_bind, run_set]
       cases tol e <;> simp [run_pure, run_throw]
 
+theorem replay_one {fs fs' : Fs} {op : FsOp} (h : fs.apply op = .ok fs') : replay fs [op] = some fs' := by
+  simp only [replay, h]
+
 theorem good_doOp {k} (op : FsOp) : Good k (doOp op) where
   mono := fun s h => by
     rw [run_doOp]
-    simp only [h]
-    cases s.fs.apply op <;> simp [MonoAt]
+    simp only [h.beq]
+    cases ha : s.fs.apply op with
+    | ok fs' => exact ⟨Nat.le_succ _, rfl, [op], rfl, replay_one ha⟩
+    | error e => exact ⟨Nat.le_succ _, rfl, [], by simp, rfl⟩
   sim := fun s h hc => by
     rw [run_doOp, run_doOp]
     simp only [h, wf_faultAt, wf_opCount, wf_fs]
     by_cases hk : k = s.opCount
     · subst hk
-      refine .inr ?_
+      refine .inr (.inl ?_)
       cases s.fs.apply op <;> simp [wf]
     · refine .inl ?_
       have : s.opCount + 1 ≤ k := by omega
@@ -227,19 +331,86 @@ theorem good_doOp {k} (op : FsOp) : Good k (doOp op) where
 theorem good_tryOp {k} (op : FsOp) (tol) : Good k (tryOp op tol) where
   mono := fun s h => by
     rw [run_tryOp]
-    simp only [h]
-    cases s.fs.apply op <;> simp [MonoAt]
+    simp only [h.beq]
+    cases ha : s.fs.apply op with
+    | ok fs' => exact ⟨Nat.le_succ _, rfl, [op], rfl, replay_one ha⟩
+    | error e => exact ⟨Nat.le_succ _, rfl, [], by simp, rfl⟩
   sim := fun s h hc => by
     rw [run_tryOp, run_tryOp]
     simp only [h, wf_faultAt, wf_opCount, wf_fs]
     by_cases hk : k = s.opCount
     · subst hk
-      refine .inr ?_
+      refine .inr (.inl ?_)
       cases s.fs.apply op <;> simp [wf]
     · refine .inl ?_
       have : s.opCount + 1 ≤ k := by omega
       cases s.fs.apply op <;> simp [wf, hk, this]
 
+/-- `opChmod`: a fault which hits it is tolerated if the path has these permissions already (D105) -/
+theorem run_opChmod (p : Bytes) (m : Nat) (s : DState) : run (opChmod p m) s =
+    if s.faultAt == some s.opCount then
+      (if hasMode (s.fs.stat (absPath s p)) m then .ok ⟨⟩ else .error .systemError, { s with opCount := s.opCount + 1 })
+    else run (doOp (.chmod (absPath s p) m)) s := by
+  unfold opChmod
+  rw [run_bind_ok (run_get s)]
+  split
+  · rw [run_bind_ok (run_set _ s)]
+    show run (if hasMode (s.fs.stat (absPath s p)) m = true then Pure.pure () else throw Exn.systemError) _ = _
+    cases hasMode (s.fs.stat (absPath s p)) m <;> rfl
+  · rfl
+
+theorem run_opChmod_clear {p : Bytes} {m : Nat} {s : DState} (h : Clear s) :
+    run (opChmod p m) s = run (doOp (.chmod (absPath s p) m)) s := by
+  rw [run_opChmod, h.beq]; rfl
+
+theorem apply_chmod_of_hasMode {fs : Fs} {p : Bytes} {m : Nat} (h : hasMode (fs.stat p) m = true) :
+    ∃ fs', fs.apply (.chmod p m) = .ok fs' := by
+  unfold hasMode at h
+  simp only [Fs.apply]
+  split at h
+  · rename_i hs; rw [hs]; simp only; split <;> exact ⟨_, rfl⟩
+  · rename_i hs; rw [hs]; exact ⟨_, rfl⟩
+  · rename_i hs; rw [hs]; exact ⟨_, rfl⟩
+  · cases h
+
+theorem run_doOp_clear {op : FsOp} {s : DState} (h : Clear s) : run (doOp op) s =
+    match s.fs.apply op with
+    | .ok fs' => (.ok ⟨⟩, { s with fs := fs', trace := s.trace ++ [op], opCount := s.opCount + 1 })
+    | .error _ => (.error .systemError, { s with opCount := s.opCount + 1 }) := by
+  rw [run_doOp, h.beq]; rfl
+
+theorem good_opChmod {k} (p m) : Good k (opChmod p m) where
+  mono := fun s h => by rw [run_opChmod_clear h]; exact (good_doOp (k := k) _).mono s h
+  sim := fun s h hc => by
+    by_cases hk : k = s.opCount
+    · subst hk
+      have ep : run (opChmod p m) s = run (doOp (.chmod (absPath s p) m)) s := run_opChmod_clear (.of_none h)
+      have eq : run (opChmod p m) (wf s.opCount s) =
+          (if hasMode (s.fs.stat (absPath s p)) m then .ok ⟨⟩ else .error .systemError,
+            { wf s.opCount s with opCount := s.opCount + 1 }) := by
+        rw [run_opChmod]; simp only [wf_faultAt, wf_opCount, beq_self_eq_true, if_true]; rfl
+      rw [ep, eq]
+      cases hm : hasMode (s.fs.stat (absPath s p)) m with
+      | false =>
+        have e2 : run (doOp (.chmod (absPath s p) m)) (wf s.opCount s) =
+            (.error .systemError, { wf s.opCount s with opCount := s.opCount + 1 }) := by
+          rw [run_doOp]; simp
+        show Out _ s _ (.error .systemError, _)
+        rw [← e2]
+        exact (good_doOp _).sim s h hc
+      | true =>
+        obtain ⟨fs', ha⟩ := apply_chmod_of_hasMode hm
+        rw [run_doOp_clear (.of_none h), ha]
+        refine .inr (.inr ⟨Nat.lt_succ_self _, Nat.lt_succ_self _, rfl, h, [], absPath s p, m, s.fs, ⟨[], ?_⟩, ⟨[], ?_⟩, rfl, hm⟩)
+        · simp
+        · simp [wf]
+    · have e : run (opChmod p m) (wf k s) = run (doOp (.chmod (absPath s p) m)) (wf k s) := by
+        rw [run_opChmod]
+        have : ((wf k s).faultAt == some (wf k s).opCount) = false := by
+          simp only [wf_faultAt, wf_opCount, beq_eq_false_iff_ne, ne_eq, Option.some.injEq]; exact hk
+        rw [this]; rfl
+      rw [run_opChmod_clear (.of_none h), e]
+      exact (good_doOp _).sim s h hc
 
 /-! ## a tactic that walks over an elaborated `do` block -/
 
@@ -296,7 +467,7 @@ macro "dm_step" : tactic => `(tactic| first
   | with_reducible exact Good.throw _
   | with_reducible exact Good.liftE _
   | (with_reducible refine Good.get_bind ?_ (fun _ => ?_)); (· intros; rfl)
-  | (with_reducible refine Good.modify ?_ ?_ ?_) <;> (intros; rfl)
+  | (with_reducible refine Good.modify ?_ ?_ ?_ ?_) <;> (intros; rfl)
   | with_reducible refine Good.bind ?_ (fun _ => ?_)
   | with_reducible refine Good.map _ ?_
   | with_reducible refine Good.ite ?_ ?_
@@ -339,7 +510,6 @@ macro_rules | `(tactic| dm_prim) => `(tactic| with_reducible exact good_fsGetPer
 theorem good_opWrite {k} (p b) : Good k (opWrite p b) := by unfold opWrite; dm_good
 macro_rules | `(tactic| dm_prim) => `(tactic| with_reducible exact good_opWrite _ _)
 
-theorem good_opChmod {k} (p m) : Good k (opChmod p m) := by unfold opChmod; dm_good
 macro_rules | `(tactic| dm_prim) => `(tactic| with_reducible exact good_opChmod _ _)
 
 theorem good_opRename {k} (a b) : Good k (opRename a b) := by unfold opRename; dm_good
@@ -410,7 +580,7 @@ theorem run_readTty (s) : run readTty s =
 theorem good_readTty {k} : Good k readTty where
   mono := fun s h => by
     rw [run_readTty]
-    split <;> simp [MonoAt, h]
+    split <;> exact ⟨Nat.le_refl _, rfl, [], by simp, rfl⟩
   sim := fun s h hc => by
     rw [run_readTty, run_readTty]
     refine .inl ?_
@@ -432,15 +602,28 @@ macro_rules | `(tactic| dm_prim) => `(tactic| with_reducible exact good_promptFo
 
 /-- `makeBackupFor` with its `set { s with … }` written as a `modify` -/
 def makeBackupFor' (o : Options) (p : Bytes) : DM Unit := do
+  if (← fsExists p) && !(← fsIsRegular p) then return
   let s ← get
   if !s.backedUp.contains (backupName o p) then
     modify fun s => { s with backedUp := s.backedUp ++ [backupName o p] }
     ensureParentDirs (backupName o p)
     if (← fsExists p) then opRename p (backupName o p) else do makeWayFor (backupName o p); opCreat (backupName o p)
 
+theorem run_fsExists (p : Bytes) (s : DState) : run (fsExists p) s = (.ok (s.fs.stat (absPath s p)).isSome, s) := rfl
+theorem run_fsIsRegular (p : Bytes) (s : DState) :
+    run (fsIsRegular p) s = (.ok (match s.fs.stat (absPath s p) with | some (.file _ _) => true | _ => false), s) := rfl
+
+theorem run_ite_congr {α} {c : Prop} [Decidable c] {a b b' : DM α} {s : DState} (h : run b s = run b' s) :
+    run (if c then a else b) s = run (if c then a else b') s := by
+  split
+  · rfl
+  · exact h
+
 theorem good_makeBackupFor {k} (o p) : Good k (makeBackupFor o p) := by
   refine Good.congr (m' := makeBackupFor' o p) (fun s => ?_) (by unfold makeBackupFor'; dm_good)
   unfold makeBackupFor makeBackupFor'
+  simp only [run_bind, run_fsExists, run_fsIsRegular]
+  refine run_ite_congr ?_
   simp only [run_bind, run_get]
   split
   · simp only [run_bind, run_set, run_modify]
@@ -513,14 +696,16 @@ theorem runPatch_out (o : Options) (s : DState) (k : Nat) (hs : s.faultAt = none
     ((runPatch o (wf k s)).1 = (runPatch o s).1 ∧ (runPatch o (wf k s)).2 = wf k (runPatch o s).2 ∧
       (runPatch o s).2.opCount ≤ k) ∨
     (k < (runPatch o s).2.opCount ∧ (runPatch o (wf k s)).2.opCount = k + 1 ∧ (runPatch o (wf k s)).1 = 2 ∧
-      ∃ t, (runPatch o s).2.trace = (runPatch o (wf k s)).2.trace ++ t) := by
+      ∃ t, (runPatch o s).2.trace = (runPatch o (wf k s)).2.trace ++ t) ∨
+    (k < (runPatch o s).2.opCount ∧ k < (runPatch o (wf k s)).2.opCount ∧
+      ToleratedChmod s (runPatch o s).2 (runPatch o (wf k s)).2) := by
   cases hh : (o.showHelp || o.showVersion)
   · rw [runPatch_eq o s hh, runPatch_eq o (wf k s) hh]
     have h := (good_processPatchM (k := k) o).sim s hs hc
     rcases hp : run (processPatchM o) s with ⟨r, s'⟩
     rcases hq : run (processPatchM o) (wf k s) with ⟨r2, s2⟩
     rw [hp, hq] at h
-    rcases h with ⟨e1, e2, e3⟩ | ⟨e1, e2, _, ⟨e, e4⟩, t, e5⟩
+    rcases h with ⟨e1, e2, e3⟩ | ⟨e1, e2, _, ⟨e, e4⟩, t, e5⟩ | ⟨e1, e2, _, _, e3⟩
     · simp only at e1 e2 e3
       subst e1 e2
       refine .inl ?_
@@ -529,10 +714,13 @@ theorem runPatch_out (o : Options) (s : DState) (k : Nat) (hs : s.faultAt = none
       | ok u => exact ⟨rfl, rfl, e3⟩
     · simp only at e1 e2 e4 e5
       subst e4
-      refine .inr ?_
+      refine .inr (.inl ?_)
       cases r with
       | error e => exact ⟨e1, e2, rfl, t, e5⟩
       | ok u => exact ⟨e1, e2, rfl, t, e5⟩
+    · simp only at e1 e2 e3
+      refine .inr (.inr ?_)
+      cases r <;> cases r2 <;> exact ⟨e1, e2, e3⟩
   · rw [runPatch_help o s hh, runPatch_help o (wf k s) hh]
     exact .inl ⟨rfl, rfl, hc⟩
 
